@@ -1345,7 +1345,7 @@ func fdsDirect(seed uint64, tier string, args []string, w *bufio.Writer) {
 	}
 
 	// 6. garbage collection with operations deferred: the registry keeps the owner alive, the completion arrives
-	for _, kind := range []string{"conn-read", "conn-write", "conn-both", "adapter-read", "adapter-both", "packet-read", "listener-accept"} {
+	for _, kind := range []string{"conn-read", "conn-write", "conn-both", "accepted-read", "adapter-read", "adapter-both", "packet-read", "listener-accept"} {
 		kind := kind
 		d.trial("gc."+kind, "drop all references with "+kind+" deferred, collect, complete", func() {
 			fdsGcTrial(d, ioc, kind, r)
@@ -1475,6 +1475,47 @@ func fdsGcStart(ioc *sonic.IO, kind string, completed *int, finalized *bool, pay
 				finish()
 			})
 		}
+		ioc.Dispatched = 0
+		return fd, p, nil
+	case "accepted-read":
+		// a connection handed out by a sonic listener; the completion callback does not refer to the connection, so nothing
+		// but the IO registry keeps it reachable
+		l, err := sonic.Listen(ioc, "tcp", "127.0.0.1:0", sonicopts.Nonblocking(true))
+		if err != nil {
+			return -1, nil, err
+		}
+		defer l.Close()
+		sa, _ := syscall.Getsockname(l.RawFd())
+		in4, ok := sa.(*syscall.SockaddrInet4)
+		if !ok {
+			return -1, nil, fmt.Errorf("no listener address")
+		}
+		p, err := net.Dial("tcp", fmt.Sprintf("127.0.0.1:%d", in4.Port))
+		if err != nil {
+			return -1, nil, err
+		}
+		var c sonic.Conn
+		for i := 0; i < 200 && c == nil; i++ {
+			if c, err = l.Accept(); err != nil {
+				c = nil
+				time.Sleep(time.Millisecond)
+			}
+		}
+		if c == nil {
+			p.Close()
+			return -1, nil, fmt.Errorf("accept: %v", err)
+		}
+		fd = c.RawFd()
+		num := fd
+		buf := make([]byte, len(payload))
+		ioc.Dispatched = sonic.MaxCallbackDispatch // force deferral
+		c.AsyncReadAll(buf, func(err error, n int) {
+			sent.n++
+			if err == nil && string(buf[:n]) == string(payload) {
+				*completed++
+			}
+			_ = syscall.Close(num) // (the callback holds the number, not the object)
+		})
 		ioc.Dispatched = 0
 		return fd, p, nil
 	case "adapter-read", "adapter-both":
